@@ -197,7 +197,7 @@ def check_conflict_map(rep):
 
     def iter_attrs(loop):
         """Attributes of the middleware whose elements a loop inside the middleware loop walks."""
-        return attrs_of(loop.iter, mwv, const_bindings(par, loop, outer[0], core), cm.node, core)
+        return attrs_of(loop.iter, mwv, const_bindings(par, loop, outer[0], cm.mod), cm.node, cm.mod)
     inner_loops = [s for s in ast.walk(outer[0]) if isinstance(s, ast.For) and s is not outer[0]]
     for a in prov_attrs:
         loops = [l for l in inner_loops if a in iter_attrs(l)]
@@ -207,7 +207,7 @@ def check_conflict_map(rep):
             ok = all(not conds(cm, l) for l in loops)
             ok = ok and all(norm(adds_to_map(l, norm(l.target)).args[0]) == mwv for l in loops)
         rep.check('R04.a', fkey(cm, 'mw.' + a), ok, 'every name in mw.%s is recorded with its provider, unconditionally' % a if ok else
-                  'mw.%s is not folded into the conflict map (a duplicate offered through it is silently shadowed)' % a, core,
+                  'mw.%s is not folded into the conflict map (a duplicate offered through it is silently shadowed)' % a, cm.mod,
                   loops[0] if loops else outer[0])
     ad = cps[1] if len(cps) > 1 else 'args_dict'
     def is_args_dict(e, depth=0):
@@ -246,7 +246,7 @@ def check_conflict_map(rep):
             norm(adds_to_map(inner[0], norm(inner[0].target)).args[0]) == srcv
         ok = ok and cfg.must_pass(cfg.nodes_of(src_loops[0]), cfg.entry, cfg.exit, normal_only=True)
     rep.check('R04.a', fkey(cm, 'args_dict'), ok, 'every (source, names) item of args_dict is recorded' if ok else
-              'the non-middleware sources (url / builtins / resources) are not all folded into the conflict map', core,
+              'the non-middleware sources (url / builtins / resources) are not all folded into the conflict map', cm.mod,
               src_loops[0] if src_loops else cm.node)
     # conflicts => NameError
     rz = [r for r in raises_of(cm) if raise_type(r) == 'NameError']
@@ -278,7 +278,7 @@ def check_conflict_map(rep):
                         ok = True
                         built_by.append(lp)
     rep.check('R04.a', fkey(cm, 'conflicts'), ok, 'any name with more than one provider raises NameError' if ok else
-              'a name with several providers does not (always) raise NameError', core, rz[0] if rz else cm.node)
+              'a name with several providers does not (always) raise NameError', cm.mod, rz[0] if rz else cm.node)
     chain.check_raise_total(rep, 'R04.a', cm, rz, 'the NameError for conflicting provides')
     if rz:
         ifs = [s for s in stmts_of(cm.node) if isinstance(s, ast.If) and any(r in list(ast.walk(s)) for r in rz)]
@@ -287,12 +287,12 @@ def check_conflict_map(rep):
             all(cfg.must_pass(cfg.nodes_of(outer[0]), cfg.entry, cfg.nodes_of(b)) and
                 (not src_loops or cfg.must_pass(cfg.nodes_of(src_loops[0]), cfg.entry, cfg.nodes_of(b))) for b in built_by)
         rep.check('R04.a', fkey(cm, 'conflict test on every path'), ok, 'the conflict test runs after all sources are recorded, on every path' if ok else
-                  'the conflict test can be bypassed or runs before all sources are recorded', core, ifs[0] if ifs else cm.node)
+                  'the conflict test can be bypassed or runs before all sources are recorded', cm.mod, ifs[0] if ifs else cm.node)
     # per-middleware check
     calls = [c for c in ast.walk(outer[0]) if isinstance(c, ast.Call) and call_name(c) == 'check_middleware' and c.args and norm(c.args[0]) == mwv]
-    ok = len(calls) == 1 and isinstance(stmt_of(core, calls[0]), ast.Expr) and stmt_of(core, calls[0]) in outer[0].body
+    ok = len(calls) == 1 and isinstance(stmt_of(cm.mod, calls[0]), ast.Expr) and stmt_of(cm.mod, calls[0]) in outer[0].body
     rep.check('R04.d', fkey(cm, 'check_middleware(mw)'), ok, 'check_middleware runs for every middleware' if ok else
-              'check_middleware is not called unconditionally for every middleware', core, calls[0] if calls else outer[0])
+              'check_middleware is not called unconditionally for every middleware', cm.mod, calls[0] if calls else outer[0])
     # call site in BoundRoute.__init__
     bi = route.func('BoundRoute.__init__')
     cc = [c for c in walk_body(bi.node) if isinstance(c, ast.Call) and call_name(c) == 'check_middlewares']
@@ -303,7 +303,7 @@ def check_conflict_map(rep):
         rep.fail('R04.a', fkey(bi, 'source map'), 'check_middlewares is called without the url / builtins / resources sources', route, cc[0])
     else:
         try:
-            uni, mp = chain.eval_bind_sources(repo, src_arg, stmt_of(route, cc[0]))
+            uni, mp = chain.eval_bind_sources(repo, src_arg, stmt_of(bi.mod, cc[0]))
         except Unmodelled as e:
             raise AnalysisError('BoundRoute.__init__ source map: %s' % e)
         ok = isinstance(mp, dict) and sorted(mp.values(), key=repr) == sorted([uni['URL'], uni['BUILTINS'], uni['RES']], key=repr)
@@ -340,7 +340,7 @@ def request_phase_removed(repo):
             return Opaque(e, 'chain')
         return None
     it = SetInterp(uni, env={ps[3]: uni['PRE']}, elems=dict((repr(n), uni['n:' + n]) for n in reserved), model=model)
-    it.fold = lambda e: repo.try_fold(e, core)
+    it.fold = lambda e: repo.try_fold(e, mm.mod)
     for p in ps[:3]:
         it.env[p] = Opaque(None, p)
     for st in mm.node.body:
@@ -422,7 +422,7 @@ def check_reserved_tables(rep):
     rep.check('R04.b', fkey(mm, 'names removed from request availability'), ok,
               'request/endpoint phases lose exactly RESERVED_ARGS - _REQUEST_BUILTINS = %s' % sorted(reserved - req_builtins) if ok else
               'names removed from request-phase availability (%s) differ from RESERVED_ARGS - _REQUEST_BUILTINS (%s)'
-              % (sorted(removed), sorted(reserved - req_builtins)), core, mm.node)
+              % (sorted(removed), sorted(reserved - req_builtins)), mm.mod, mm.node)
     ok = req_builtins <= reserved and req_builtins == {'request', '_application', '_route', '_dispatch_state'}
     rep.check('R04.b', '%s::_REQUEST_BUILTINS' % ROUTE, ok, 'request built-ins are %s' % sorted(req_builtins) if ok else
               '_REQUEST_BUILTINS changed: %s' % sorted(req_builtins), route)
@@ -539,7 +539,7 @@ def check_slots(rep):
     for q in ('check_middleware', 'Middleware.requires', 'Middleware.arguments'):
         got = tuple(sorted(slots.get(q, ())))
         rep.check('R04.d', '%s::%s::slots' % (CORE, q), got == want, '%s iterates the slots %s' % (q, want) if got == want else
-                  '%s iterates slots %s, make_middleware_chain consumes %s' % (q, got, want), core, core.func(q).node)
+                  '%s iterates slots %s, make_middleware_chain consumes %s' % (q, got, want), core.func(q).mod, core.func(q).node)
     ckm = core.func('check_middleware')
     rz = raises_of(ckm)
 
@@ -557,20 +557,20 @@ def check_slots(rep):
             if isinstance(t, ast.Compare) and len(t.ops) == 1 and isinstance(t.ops[0], (ast.Eq, ast.NotEq)):
                 a, b = t.left, t.comparators[0]
                 for x, y in ((a, b), (b, a)):
-                    if first_param(x) and repo.try_fold(y, core) == 'next':
+                    if first_param(x) and repo.try_fold(y, ckm.mod) == 'next':
                         if (isinstance(t.ops[0], ast.Eq) and p is False) or (isinstance(t.ops[0], ast.NotEq) and p is True):
                             ok = True
     rep.check('R04.d', fkey(ckm, 'first parameter next'), ok, "a slot function whose first parameter is not 'next' raises TypeError" if ok else
-              "check_middleware no longer rejects slot functions whose first parameter is not 'next'", core, ckm.node)
+              "check_middleware no longer rejects slot functions whose first parameter is not 'next'", ckm.mod, ckm.node)
     chain.check_raise_total(rep, 'R04.d', ckm, [r for r in rz if raise_type(r) == 'TypeError'], 'the TypeError for a malformed middleware function')
     ok = any(raise_type(r) == 'TypeError' and has_cond(conds(ckm, r), lambda t: isinstance(t, ast.Call) and call_name(t) == 'callable'
                                                        and len(t.args) == 1 and isinstance(t.args[0], ast.Name), False) for r in rz)
-    rep.check('R04.d', fkey(ckm, 'callable'), ok, 'a non-callable slot raises TypeError' if ok else 'non-callable slots are not rejected', core, ckm.node)
+    rep.check('R04.d', fkey(ckm, 'callable'), ok, 'a non-callable slot raises TypeError' if ok else 'non-callable slots are not rejected', ckm.mod, ckm.node)
     ai = app.func('Application.__init__')
     acfg = cfg_of(ai)
     acalls = [c for c in walk_body(ai.node) if isinstance(c, ast.Call) and call_name(c) == 'check_middlewares']
     ok = len(acalls) == 1 and bool(acalls[0].args) and norm(acalls[0].args[0]) == 'self.middlewares' and \
-        acfg.must_pass(acfg.nodes_of(stmt_of(app, acalls[0])), acfg.entry, acfg.exit, normal_only=True)
+        acfg.must_pass(acfg.nodes_of(stmt_of(ai.mod, acalls[0])), acfg.entry, acfg.exit, normal_only=True)
     rep.check('R04.d', fkey(ai, 'check_middlewares(self.middlewares)'), ok, 'application-level middlewares are checked at construction' if ok else
               'Application.__init__ does not always check its middlewares', app, ai.node)
 
